@@ -1881,6 +1881,14 @@ pub fn check_c12(ix: &Ix<'_>, v: &mut Vec<Violation>) {
                         format!("PUBLISH {:?} was delivered at step {:?} and never read although only {} handlers holding {bytes} packet bytes are running (max_receive {count_limit}, max_receive_size {size_limit}) and everything had gone quiet", p.topic, s.delivered, pubs_running.len()),
                         settle,
                     );
+                    // (the same fact read as C16: a well-formed sequence after which the endpoint stops making progress)
+                    viol(
+                        v,
+                        "C16",
+                        format!("C16/stopped-making-progress/{role}/delivered-publish-never-read"),
+                        format!("PUBLISH {:?} was delivered at step {:?} and never read although only {} handlers holding {bytes} packet bytes are running (max_receive {count_limit}, max_receive_size {size_limit}) and everything had gone quiet", p.topic, s.delivered, pubs_running.len()),
+                        settle,
+                    );
                     return;
                 }
             }
@@ -2791,6 +2799,13 @@ pub fn check_c19(ix: &Ix<'_>, v: &mut Vec<Violation>) {
         let got_ms = crate::refcodec::prop_u32(&a.props, 39).unwrap_or(0);
         if (ms != 0 || cfg.hs_max_packet_size == Some(0)) && got_ms != ms {
             viol(v, "C19", format!("C19/connack-announces-other-limit/{role}/maximum-packet-size"), format!("Maximum Packet Size in force {ms}, CONNACK announces {got_ms}"), *seq);
+        }
+        // a Server Keep Alive is an imposition: without an override by the handshake there is nothing to announce
+        // (an announced value replaces what the client asked for)
+        if cfg.hs_keepalive.is_none()
+            && let Some(got) = crate::refcodec::prop_u16(&a.props, 19)
+        {
+            viol(v, "C19", format!("C19/unrequested-server-keepalive/{role}"), format!("the handshake did not override the keep-alive (client asked for {}), yet CONNACK announces Server Keep Alive {got}", out.plan.peer.connect.keep_alive), *seq);
         }
         // keep-alive imposed by the server is announced
         if let Some(k) = cfg.hs_keepalive {
